@@ -148,6 +148,23 @@ func c01LengthSweep(c *sim.Ctx) *sim.Violation {
 			cn.ConnFlags = ref.CFPassword
 		}
 		aps = append(aps, cn)
+		// the SMALLEST packets the API can build (every string empty, nothing optional):
+		// a decoder's notion of "too short to be real" must not cut into them
+		if n%16 == 0 {
+			aps = append(aps,
+				&ref.AP{Type: ref.Connect, ProtoName: []byte{}, ProtoVer: 5},
+				&ref.AP{Type: ref.Connect, ProtoName: []byte{}, ProtoVer: 0},
+				&ref.AP{Type: ref.Connect, ProtoName: []byte("MQTT"), ProtoVer: 5},
+				&ref.AP{Type: ref.Publish, Topic: []byte{}},
+				&ref.AP{Type: ref.Publish, Topic: []byte{}, Flags: 2, PacketID: 1},
+				&ref.AP{Type: ref.Subscribe, Flags: 2, PacketID: 1, Filters: []ref.Filter{{Name: []byte{}}}},
+				&ref.AP{Type: ref.Unsubscribe, Flags: 2, PacketID: 1, Filters: []ref.Filter{{Name: []byte{}}}},
+				&ref.AP{Type: ref.SubAck, PacketID: 1, Codes: []byte{0}},
+				&ref.AP{Type: ref.UnsubAck, PacketID: 1, Codes: []byte{0}},
+				&ref.AP{Type: ref.ConnAck}, &ref.AP{Type: ref.PubAck, PacketID: 1}, &ref.AP{Type: ref.PubRec, PacketID: 1},
+				&ref.AP{Type: ref.PubRel, Flags: 2, PacketID: 1}, &ref.AP{Type: ref.PubComp, PacketID: 1},
+				&ref.AP{Type: ref.Disconnect}, &ref.AP{Type: ref.Auth}, &ref.AP{Type: ref.PingReq}, &ref.AP{Type: ref.PingResp})
+		}
 		for _, a := range aps {
 			p, _, err := buildGuard(a, nil)
 			if err != nil {
